@@ -402,6 +402,16 @@ fn sign1_history(ctx: &mut Ctx) {
     let what = perturb_protected(ctx, &mut m3.protected);
     let (seen, _) = run(&m3, &rec.aad, &rec.detached, None);
     check_perturbed(ctx, "Sign1", what, seen.map(|x| x.1), &rec, &hist);
+    // the message as built (never parsed): its own verification sees the creator's bytes, and a
+    // change to its protected header changes them
+    if rec.ret == msg.signature {
+        let (seen, _) = run(&msg, &rec.aad, &rec.detached, None);
+        check_seen(ctx, "Sign1(as built)", seen, &rec, &hist);
+        let mut mb = msg.clone();
+        let what = perturb_protected(ctx, &mut mb.protected);
+        let (seen, _) = run(&mb, &rec.aad, &rec.detached, None);
+        check_perturbed(ctx, "Sign1(as built)", what, seen.map(|x| x.1), &rec, &hist);
+    }
 }
 
 fn sign_history(ctx: &mut Ctx) {
@@ -581,6 +591,16 @@ fn sign_history(ctx: &mut Ctx) {
             let (seen, _) = run(&m, i, &rec.aad, &p2);
             check_perturbed(ctx, "Sign", "detached payload", seen.map(|x| x.1), rec, &hist);
         }
+        if i < msg.signatures.len() {
+            let mut mb = msg.clone();
+            let what = perturb_protected(ctx, &mut mb.protected);
+            let (seen, _) = run(&mb, i, &rec.aad, &rec.detached);
+            check_perturbed(ctx, "Sign(as built)", what, seen.map(|x| x.1), rec, &hist);
+            let mut mc = msg.clone();
+            let _ = perturb_protected(ctx, &mut mc.signatures[i].protected);
+            let (seen, _) = run(&mc, i, &rec.aad, &rec.detached);
+            check_perturbed(ctx, "Sign(as built)", "that signer's protected header", seen.map(|x| x.1), rec, &hist);
+        }
     }
 }
 
@@ -721,13 +741,17 @@ fn mac_history(ctx: &mut Ctx, is0: bool) {
         M(coset::CoseMac),
         M0(coset::CoseMac0),
     }
-    let back = guard(|| match b {
-        B::M(x) => {
-            let m = x.build();
+    let built = match b {
+        B::M(x) => M::M(x.build()),
+        B::M0(x) => M::M0(x.build()),
+    };
+    let back = guard(|| match &built {
+        M::M(m) => {
+            let m = m.clone();
             if tagged { m.to_tagged_vec().and_then(|b| coset::CoseMac::from_tagged_slice(&b)) } else { m.to_vec().and_then(|b| coset::CoseMac::from_slice(&b)) }.map(M::M)
         }
-        B::M0(x) => {
-            let m = x.build();
+        M::M0(m) => {
+            let m = m.clone();
             if tagged { m.to_tagged_vec().and_then(|b| coset::CoseMac0::from_tagged_slice(&b)) } else { m.to_vec().and_then(|b| coset::CoseMac0::from_slice(&b)) }.map(M::M0)
         }
     });
@@ -804,6 +828,22 @@ fn mac_history(ctx: &mut Ctx, is0: bool) {
     };
     let (seen, _) = run(&m3, &rec.aad, None);
     check_perturbed(ctx, fam, what, seen.map(|x| x.1), &rec, &hist);
+    // the message as built (never parsed)
+    let what2;
+    let mb = match &built {
+        M::M(x) => {
+            let mut y = x.clone();
+            what2 = perturb_protected(ctx, &mut y.protected);
+            M::M(y)
+        }
+        M::M0(x) => {
+            let mut y = x.clone();
+            what2 = perturb_protected(ctx, &mut y.protected);
+            M::M0(y)
+        }
+    };
+    let (seen, _) = run(&mb, &rec.aad, None);
+    check_perturbed(ctx, &format!("{}(as built)", fam), what2, seen.map(|x| x.1), &rec, &hist);
 }
 
 fn rcp_ctx(i: usize) -> EncryptionContext {
@@ -958,16 +998,21 @@ fn enc_history(ctx: &mut Ctx, kind: usize) {
         E0(coset::CoseEncrypt0),
         R(coset::CoseRecipient),
     }
-    let back = guard(|| match b {
-        B::E(x) => {
-            let m = x.build();
+    let built = match b {
+        B::E(x) => M::E(x.build()),
+        B::E0(x) => M::E0(x.build()),
+        B::R(x) => M::R(x.build()),
+    };
+    let back = guard(|| match &built {
+        M::E(m) => {
+            let m = m.clone();
             if tagged { m.to_tagged_vec().and_then(|b| coset::CoseEncrypt::from_tagged_slice(&b)) } else { m.to_vec().and_then(|b| coset::CoseEncrypt::from_slice(&b)) }.map(M::E)
         }
-        B::E0(x) => {
-            let m = x.build();
+        M::E0(m) => {
+            let m = m.clone();
             if tagged { m.to_tagged_vec().and_then(|b| coset::CoseEncrypt0::from_tagged_slice(&b)) } else { m.to_vec().and_then(|b| coset::CoseEncrypt0::from_slice(&b)) }.map(M::E0)
         }
-        B::R(x) => x.build().to_vec().and_then(|b| coset::CoseRecipient::from_slice(&b)).map(M::R),
+        M::R(m) => m.clone().to_vec().and_then(|b| coset::CoseRecipient::from_slice(&b)).map(M::R),
     });
     let m = match back {
         Ok(Ok(m)) => m,
@@ -1031,6 +1076,27 @@ fn enc_history(ctx: &mut Ctx, kind: usize) {
     };
     let (seen, _) = run(&m3, rc, &rec.aad, Ok(vec![]));
     check_perturbed(ctx, fam, what, seen.map(|x| x.1), &rec, &hist);
+    // the carrier as built (never parsed)
+    let what2;
+    let mb = match &built {
+        M::E(x) => {
+            let mut y = x.clone();
+            what2 = perturb_protected(ctx, &mut y.protected);
+            M::E(y)
+        }
+        M::E0(x) => {
+            let mut y = x.clone();
+            what2 = perturb_protected(ctx, &mut y.protected);
+            M::E0(y)
+        }
+        M::R(x) => {
+            let mut y = x.clone();
+            what2 = perturb_protected(ctx, &mut y.protected);
+            M::R(y)
+        }
+    };
+    let (seen, _) = run(&mb, rc, &rec.aad, Ok(vec![]));
+    check_perturbed(ctx, &format!("{}(as built)", fam), what2, seen.map(|x| x.1), &rec, &hist);
 }
 
 impl Check for C06 {
